@@ -205,6 +205,12 @@ async fn process_request(ctx: ContextRef, state: Arc<GlobalState>) {
     // Check if connector has requested feature
     let props = ctx.read().await.props().clone();
     let feature = props.request_feature;
+    // A host name that can not be represented faithfully by the outgoing protocols is refused
+    if !props.target.is_encodable() {
+        let e = err_msg(format!("invalid target host: {:?}", props.target.host()));
+        warn!("refused: {} \nctx: {}", e, props.to_string());
+        return ctx.on_error(e).await;
+    }
     if !connector.has_feature(feature) {
         let e = err_msg(format!("unsupported connector feature: {:?}", feature));
         warn!(
